@@ -24,6 +24,9 @@ var Hosts = []string{
 	// Real domain names that consist of hexadecimal characters only (they look
 	// like addresses to a character-class pre-filter).
 	"bce.ca", "abc.de", "fe.abc.de", "feed.cafe", "dead.beef", "ad.fad.dad.de",
+	// Names on which a character-class pre-check and the address parser
+	// disagree, and non-ASCII host names.
+	"1.2.3", "1.2.3.4.5", "abc", "12", "fe80", "bücher.example", "пример.рф",
 }
 
 // DomainValues are values for $domain and $denyallow.
@@ -44,7 +47,7 @@ var DenyAllowValues = []string{
 var Paths = []string{
 	"", "/", "/ads/banner.js", "/ads/ADS.JS", "/path/to/img.png?q=1&u=http://a.com/", "/banner",
 	"/x?ads=1", "/abcde", "/ababababab", "/a", "?q=ads", "/ads", "/path/ads/", "/Ads/Banner.JS",
-	":8080/ads/banner.js", "/adsbanner", "/ads.banner", "/ads%20banner", "/ads_banner-1",
+	":8080/ads/banner.js", "/adsbanner", "/ads.banner", "/ads%20banner", "/ads_banner-1", "/ads/bännér.js", "/реклама/ads", "/ads/İstanbul",
 	"/track/pixel.gif", "/track", "/tracker/track/track",
 }
 
@@ -59,7 +62,7 @@ var PatternTemplates = []string{
 	"/Ads/b", "ADS.JS", "/abcde", "ababa", "babab", "/banner|", "|ws://", "|http", "://", "^", "*", "|", "||", "",
 	"/track", "/track/*.gif", "pixel.gif|", "ads_banner", "ads%20", "/ads.", "js", "a", "/x?ads=1", "/HOST.",
 	// Runs of wildcards and wildcards next to other operators.
-	"||HOST/**", "/ads/***", "||HOST^**", "ads**banner", "**ads", "||HOST/*/*", "*/ads/*", "|*ads", "ads*|", "^*^", "/banner**|",
+	"/bännér", "реклама", "||HOST/реклама^", "İstanbul", "||HOST/**", "/ads/***", "||HOST^**", "ads**banner", "**ads", "||HOST/*/*", "*/ads/*", "|*ads", "ads*|", "^*^", "/banner**|",
 }
 
 // ClientNames are $client names with their textual forms.
